@@ -456,8 +456,11 @@ class type_base(object):
     @val.setter
     def val(self, v):
         if self.is_signed:
-            # TODO: handle signed masking
-            self.get_model().set_val(ValueScalar(int(v)))
+            # Wrap the user-specified value into the two's-complement range
+            v = int(v) & ((1 << self.width)-1)
+            if (v & (1 << (self.width-1))) != 0:
+                v -= (1 << self.width)
+            self.get_model().set_val(ValueScalar(v))
         else:
             # Mask the user-specified value
             v = int(v) & ((1 << self.width)-1)
@@ -468,8 +471,11 @@ class type_base(object):
     
     def set_val(self, val):
         if self.is_signed:
-            # TODO: handle signed masking
-            self.get_model().set_val(ValueScalar(int(val)))
+            # Wrap the user-specified value into the two's-complement range
+            val = int(val) & ((1 << self.width)-1)
+            if (val & (1 << (self.width-1))) != 0:
+                val -= (1 << self.width)
+            self.get_model().set_val(ValueScalar(val))
         else:
             # Mask the user-specified value
             val = int(val) & ((1 << self.width)-1)
